@@ -310,7 +310,7 @@ class Table:
         to force equal hashes on equal numbers, even when they naturally have different hashes due
         to having different data types.
         """
-        if isinstance(other, self.__class__):
+        if isinstance(other, Table):
             self_key = self.__metadata_comp_key()
             other_key = other.__metadata_comp_key()
             return self_key == other_key and _df_elements_all_equal_or_same(self._df, other._df)
